@@ -57,6 +57,10 @@ BASE = {
     "yield y": [Y("<state>y")],
     "loop-use": [A("w", "<func>f(<t>, <state>y)"), A("<p>r[i]", "<builtin>norm_2(w) + i", [("i", "0", "3")])],
     "loop-make": [A("<p>r[i]", "<builtin>norm_2(<func>f(<t> + i, <state>y))", [("i", "0", "3")])],
+    "loop-use-guarded": [A("w", "<func>f(<t>, <state>y)"),
+                         ["IF", G, [A("<p>r[i]", "<builtin>norm_2(w) + i", [("i", "0", "3")])], None]],
+    "loop-use-ifexp": [A("w", "<func>f(<t>, <state>y)"),
+                       A("<p>r[i]", "<builtin>norm_2((w if i > 0 else <state>y)) + i", [("i", "0", "3")])],
     "w-then-guarded-use": [A("w", "<state>y * 2"), ["IF", G, [A("<state>y", "w")], None]],
     "w-guarded-then-use": [["IF", G, [A("w", "<state>y * 2")], [A("w", "<state>y * 4")]], A("<state>y", "w")],
 }
@@ -68,7 +72,8 @@ CONTROL = {
 }
 ATOMS = dict(BASE)
 for k_, v_ in BASE.items():
-    if k_ not in ("w-then-guarded-use", "w-guarded-then-use", "loop-use", "loop-make"):
+    if k_ not in ("w-then-guarded-use", "w-guarded-then-use", "loop-use", "loop-make", "loop-use-guarded",
+                  "loop-use-ifexp"):
         ATOMS["if{" + k_ + "}"] = guarded(v_)
 ATOMS.update(CONTROL)
 
